@@ -154,7 +154,7 @@ Definition encoding := label -> poly.     (* only p_off and p_lin are used *)
 Definition enc_of (tab : list (label * poly)) : encoding :=
   fun v => match find (fun e => (fst e =? v)%nat) tab with
            | Some e => snd e
-           | None => mkPoly 0 [(v, 1)] []
+           | None => mkPoly 0 [] []          (* not a CQM variable: contributes nothing *)
            end.
 
 Definition enc_binary (v : label) : poly := mkPoly 0 [(v, 1)] [].
@@ -247,3 +247,32 @@ Fixpoint total_penalty (ks : list zcon) (x : list bool) (ss : list (list bool)) 
   | k :: kr, s :: sr => (zcon_penalty k x s + total_penalty kr x sr)%Z
   | _, _ => 0%Z
   end.
+
+(* ------------------------------------------------------------------ *)
+(* BQM.add_linear_inequality_constraint, the remaining options *)
+
+Definition lbc_of (a : list Z) (const lb : Z) : Z := Z.max (sum_neg a) (lb - const).
+
+(* cross_zero=True: `if lb_c > 0 or ub_c < 0: if ub_c - slack_upper_bound > 0:` i.e. lb_c > 0;
+   one more slack bit with coefficient ub_c - slack_upper_bound = lb_c *)
+Definition plan_inequality_cz (cross_zero : bool) (a : list Z) (const lb ub : Z) : ineq_plan :=
+  match plan_inequality a const lb ub with
+  | Slack ubc cs =>
+      if cross_zero && (0 <? lbc_of a const lb)%Z then Slack ubc (cs ++ [lbc_of a const lb]) else Slack ubc cs
+  | p => p
+  end.
+
+(* penalization_method='unbalanced' with lagrange_multiplier = (lam0, lam1), after the same
+   skip / refuse tests:  add_linear(v, lam0*bias) per term; offset += -ub_c (NOT lam0*ub_c);
+   add_linear_equality_constraint(terms, lam1, -ub_c) *)
+Definition add_unbalanced (py : bool) (vt : vartype) (terms : list lterm) (lam0 lam1 ubc : Qc) (p : poly) : poly :=
+  (if py then add_eq_py else add_eq_cy) vt terms lam1 (- ubc)
+    (add_offset (- ubc) (fold_left (fun acc t => add_linear (fst t) (lam0 * snd t) acc) terms p)).
+
+(* ------------------------------------------------------------------ *)
+(* DQM samples: a sample selects one case per variable; a term (variable, case, bias) counts iff selected *)
+Definition dterm := (nat * nat * Z)%type.
+Definition dqm_bits (terms : list dterm) (sel : nat -> nat) : list bool :=
+  map (fun t => (sel (fst (fst t)) =? snd (fst t))%nat) terms.
+Definition dqm_sum (terms : list dterm) (sel : nat -> nat) : Z :=
+  dot (map snd terms) (dqm_bits terms sel).
